@@ -66,8 +66,14 @@ var IntType = &ScalarType{
 		}
 		return nil
 	},
-	VariableValueCoercion: coerceInt,
-	ResultCoercion:        coerceInt,
+	VariableValueCoercion: func(v interface{}) interface{} {
+		if _, ok := v.(bool); ok {
+			// only result coercion converts booleans
+			return nil
+		}
+		return coerceInt(v)
+	},
+	ResultCoercion: coerceInt,
 }
 
 func coerceFloat(v interface{}) interface{} {
@@ -123,8 +129,14 @@ var FloatType = &ScalarType{
 		}
 		return nil
 	},
-	VariableValueCoercion: coerceFloat,
-	ResultCoercion:        coerceFloat,
+	VariableValueCoercion: func(v interface{}) interface{} {
+		if _, ok := v.(bool); ok {
+			// only result coercion converts booleans
+			return nil
+		}
+		return coerceFloat(v)
+	},
+	ResultCoercion: coerceFloat,
 }
 
 func coerceString(v interface{}) interface{} {
